@@ -1,12 +1,14 @@
 #!/bin/sh
-# reverify_seed.sh <seed-id>: does the stored seed still apply to /repo's HEAD and still break the property there?
+# reverify_seed.sh <seed-id> [tests]: does the stored seed still apply to /repo's HEAD and still break the property there?
+# The demo is run from <scratch>/seed/demo.py so that demos which locate the package relative to themselves find the scratch copy.
 ID="$1"
 D=$(mktemp -d /tmp/reverify.XXXXXX)
 cp -r /repo/spatialmath /repo/tests "$D/" 2>/dev/null
+mkdir -p "$D/seed"; cp /verif/seeded/$ID/demo.py "$D/seed/demo.py"
 cd "$D"
-PYTHONPATH="$D" /venv/bin/python -W ignore /verif/seeded/$ID/demo.py >/dev/null 2>&1; C=$?
+PYTHONPATH="$D" /venv/bin/python -W ignore seed/demo.py >/dev/null 2>&1; C=$?
 if patch -s -p1 < /verif/seeded/$ID/patch.diff >/dev/null 2>&1; then A=applies; else A=CONFLICT; fi
-PYTHONPATH="$D" /venv/bin/python -W ignore /verif/seeded/$ID/demo.py >/dev/null 2>&1; B=$?
+PYTHONPATH="$D" /venv/bin/python -W ignore seed/demo.py >/dev/null 2>&1; B=$?
 T=""
 if [ "$2" = "tests" ]; then T=$(cd "$D" && /venv/bin/python -W ignore -m pytest -q -p no:cacheprovider tests -k "not plot and not graphics and not animate" 2>&1 | tail -1); fi
 echo "$ID: patch $A; demo on HEAD exit=$C; demo with seed exit=$B $T"
